@@ -32,7 +32,9 @@ def kernel_file_text(kd):
     txt += f"Definition ic_all : ictx := {common.contract_coq(con_all)}.\n"
     con_flag = dict(con_all)
     con_flag["np"] = con["np_flag"]
-    txt += f"Definition ic_en : ictx := {common.contract_coq(con)}.\n"
+    con_en = dict(con)
+    con_en["c_allowed"] = con["c_used"]
+    txt += f"Definition ic_en : ictx := {common.contract_coq(con_en)}.\n"
     txt += f"Definition ic_flag : ictx := {common.contract_coq(con_flag)}.\n"
     txt += ("Definition verdict := (check_kernel ic_all nA k, check_kernel ic_en nA k, accum_only_list k, "
             "check_kernel ic_flag nA k).\nEval vm_compute in verdict.\n")
